@@ -6,6 +6,8 @@ from . import l2, l7
 def run(run, tier):
     hs = l7.harnesses(tier, run.seed)
     ch.run_harnesses(run, "C07", hs, timeout=200 if tier == "quick" else 900)
+    from vf import bounds
+    bounds.report(run, ["fastavro._write_py", "fastavro._read_py"], 4, "operations per history / records per block")
     l2.describe(run, tier)
     n = 4 if tier == "thorough" else 3
     run.bounds += [f"histories of <= {n} operations (plus the final flush) over {{write one of 2-3 conforming records, write one of 2-5 "
